@@ -83,13 +83,15 @@ type mstep struct {
 	Bl   bool   `json:"bl,omitempty"`
 	Ban  bool   `json:"ban,omitempty"`
 	Live bool   `json:"live,omitempty"`
+	Form string `json:"form,omitempty"` // black-/whitelist entry: ip (the address) | net (range containing it) | other (range elsewhere)
+	N    int    `json:"n,omitempty"`    // Idle: ticks; Flood: number of AllowIP calls
+	Adm  int    `json:"adm,omitempty"`  // Flood: admissions the model expects
 }
 
 type behaviour struct {
 	C    mcfg    `json:"c"`
 	S    []mstep `json:"s"`
 	Bad  string  `json:"bad,omitempty"`  // how a failed authentication is produced: unknown | hmac | nochal
-	Var  string  `json:"var,omitempty"`  // blacklist entries: exact | cidr
 	Free *freeP  `json:"free,omitempty"` // free-running variant
 }
 
@@ -338,6 +340,9 @@ type world struct {
 	cancel   context.CancelFunc
 	bf       *security.BruteForceProtector
 	ipm      *security.IPManager
+	ipmStop  context.CancelFunc
+	ctx      context.Context
+	store    storage.Storage // what the IPManager persists to: survives a Reload
 	rl       *security.RateLimiter
 	auth     *server.ServerAuthHandler
 	cloud    *fakeCloud
@@ -367,12 +372,28 @@ func newWorld(beh *behaviour, free bool, win, ban time.Duration, rate int) *worl
 	}
 	w.bf = security.NewBruteForceProtector(&security.BruteForceConfig{MaxFailures: beh.C.Thr, TimeWindow: win, BanDuration: ban,
 		PermanentBanAt: beh.C.Perm, CleanupInterval: time.Hour}, ctx)
-	w.ipm = security.NewIPManager(storage.NewMemoryStorage(ctx), ctx)
+	w.ctx = ctx
+	w.store = storage.NewMemoryStorage(ctx)
+	w.newIPManager()
 	w.rl = security.NewRateLimiter(&security.RateLimitConfig{Rate: rate, Burst: beh.C.Burst, TTL: time.Hour}, nil, ctx)
 	w.cloud = &fakeCloud{w: w, byGid: map[int64]int{}}
 	w.auth = server.NewServerAuthHandler(w.cloud, sharedSM, w.bf, w.ipm, w.rl, keys)
 	w.start = time.Now()
 	return w
+}
+
+// newIPManager (re)creates the IPManager over the world's storage, as a restart of the server (or a
+// second node sharing the storage) does: NewIPManager loads the persisted lists.
+func (w *world) newIPManager() {
+	if w.ipmStop != nil {
+		w.ipmStop() // the previous instance's clean-up task ends with it
+	}
+	ictx, stop := context.WithCancel(w.ctx)
+	w.ipmStop = stop
+	w.ipm = security.NewIPManager(w.store, ictx)
+	if w.cloud != nil {
+		w.auth = server.NewServerAuthHandler(w.cloud, sharedSM, w.bf, w.ipm, w.rl, keys)
+	}
 }
 
 func (w *world) close() {
@@ -388,12 +409,17 @@ func (w *world) realIP(ip string) string {
 	return w.net3 + ".7"
 }
 
-func (w *world) blKey(ip string) string {
-	if w.beh.Var == "cidr" {
+// entryKey is the list entry of the given form for model address ip: the address itself, a CIDR range
+// containing it (and nothing else the behaviours use), or a range elsewhere in the same /24.
+func (w *world) entryKey(ip, form string) string {
+	switch form {
+	case "net":
 		if ip == "b" {
 			return w.net3 + ".8/31"
 		}
 		return w.net3 + ".6/31"
+	case "other":
+		return w.net3 + ".64/30"
 	}
 	return w.realIP(ip)
 }
@@ -510,7 +536,7 @@ func drive(env *fw.Env, b fw.Behaviour) *fw.Trace {
 	w.register(true)
 	w.log(fw.Event{"ev": "Cfg", "thr": beh.C.Thr, "perm": beh.C.Perm, "win": int(dur(beh.C.Win) / time.Millisecond),
 		"ban": int(dur(beh.C.Ban) / time.Millisecond), "bld": int(dur(beh.C.Bld) / time.Millisecond), "burst": beh.C.Burst, "rate": rate,
-		"mS": marginStart, "mE": marginEnd, "slack": rateSlack, "aTol": 0, "var": beh.Var})
+		"mS": marginStart, "mE": marginEnd, "slack": rateSlack, "aTol": 0})
 
 	tick := 0
 	tickStart := func() time.Time { return w.start.Add(time.Duration(tick) * tickD) }
@@ -575,13 +601,32 @@ func drive(env *fw.Env, b fw.Behaviour) *fw.Trace {
 			ips[st.IP] = true
 		}
 		switch st.A {
-		case "Tick":
-			tick++
+		case "Tick", "Idle":
+			n := 1
+			if st.A == "Idle" {
+				n = st.N
+			}
+			tick += n
 			if d := time.Until(tickStart().Add(maxOff + time.Millisecond)); d > 0 {
 				time.Sleep(d)
 			}
 			w.log(fw.Event{"ev": "Tick"})
 			continue
+		case "Flood": // st.N AllowIP calls back to back, straight at the limiter
+			got := 0
+			for k := 0; k < st.N; k++ {
+				t0 := w.ms0()
+				ok := w.rl.AllowIP(w.realIP(st.IP))
+				w.log(fw.Event{"ev": "Take", "ip": st.IP, "ok": ok, "t0": t0, "t1": w.ms1()})
+				if ok {
+					got++
+				}
+			}
+			noteAgree(b.Src, got == st.Adm, fmt.Sprintf("beh %d: flood of %d admitted %d, model %d", b.ID, st.N, got, st.Adm))
+		case "Reload":
+			t0 := w.ms0()
+			w.newIPManager()
+			w.log(fw.Event{"ev": "Reload", "t0": t0, "t1": w.ms1()})
 		case "Hs":
 			gap()
 			c := &hsCall{ip: st.IP, kind: st.Kind, t0: w.ms0()}
@@ -668,25 +713,25 @@ func drive(env *fw.Env, b fw.Behaviour) *fw.Trace {
 			if st.A == "BlkP" {
 				d = 0
 			}
-			if err := w.ipm.AddToBlacklist(w.blKey(st.IP), d, "c18", "operator"); err != nil {
+			if err := w.ipm.AddToBlacklist(w.entryKey(st.IP, st.Form), d, "c18", "operator"); err != nil {
 				return &fw.Trace{Status: fw.DriverError, Note: err.Error()}
 			}
-			w.log(fw.Event{"ev": "Blk", "ip": st.IP, "perm": st.A == "BlkP", "t0": t0, "t1": w.ms1()})
+			w.log(fw.Event{"ev": "Blk", "ip": st.IP, "perm": st.A == "BlkP", "form": st.Form, "t0": t0, "t1": w.ms1()})
 			needGap = true
 		case "MUnbl":
 			t0 := w.ms0()
-			w.ipm.RemoveFromBlacklist(w.blKey(st.IP))
-			w.log(fw.Event{"ev": "MUnbl", "ip": st.IP, "t0": t0, "t1": w.ms1()})
+			w.ipm.RemoveFromBlacklist(w.entryKey(st.IP, st.Form))
+			w.log(fw.Event{"ev": "MUnbl", "ip": st.IP, "form": st.Form, "t0": t0, "t1": w.ms1()})
 		case "Wl", "UnWl":
 			t0 := w.ms0()
 			if st.A == "Wl" {
-				if err := w.ipm.AddToWhitelist(w.realIP(st.IP), "c18", "operator"); err != nil {
+				if err := w.ipm.AddToWhitelist(w.entryKey(st.IP, st.Form), "c18", "operator"); err != nil {
 					return &fw.Trace{Status: fw.DriverError, Note: err.Error()}
 				}
 			} else {
-				w.ipm.RemoveFromWhitelist(w.realIP(st.IP))
+				w.ipm.RemoveFromWhitelist(w.entryKey(st.IP, st.Form))
 			}
-			w.log(fw.Event{"ev": "Wl", "ip": st.IP, "on": st.A == "Wl", "t0": t0, "t1": w.ms1()})
+			w.log(fw.Event{"ev": "Wl", "ip": st.IP, "on": st.A == "Wl", "form": st.Form, "t0": t0, "t1": w.ms1()})
 			needGap = true
 		case "Clean", "CleanL":
 			var obj any = w.bf
@@ -885,7 +930,7 @@ func driveFree(env *fw.Env, beh *behaviour) *fw.Trace {
 		}
 	}
 	w.log(fw.Event{"ev": "Cfg", "thr": 2, "perm": beh.Free.Perm, "win": int(win / time.Millisecond), "ban": int(ban / time.Millisecond),
-		"bld": int(bld / time.Millisecond), "burst": 3, "rate": rate, "mS": marginStart, "mE": 12, "slack": rateSlack, "aTol": 6, "var": "exact"})
+		"bld": int(bld / time.Millisecond), "burst": 3, "rate": rate, "mS": marginStart, "mE": 12, "slack": rateSlack, "aTol": 6})
 	stop := time.Now().Add(time.Duration(beh.Free.Ms) * time.Millisecond)
 	var wg sync.WaitGroup
 	run := func(f func()) {
@@ -935,7 +980,7 @@ func driveFree(env *fw.Env, beh *behaviour) *fw.Trace {
 			}
 			t0 := w.ms0()
 			w.ipm.AddToBlacklist(w.realIP("a"), bld, "c18", "operator")
-			w.log(fw.Event{"ev": "Blk", "ip": "a", "perm": false, "t0": t0, "t1": w.ms1()})
+			w.log(fw.Event{"ev": "Blk", "ip": "a", "perm": false, "form": "ip", "t0": t0, "t1": w.ms1()})
 		})
 	}
 	done := make(chan struct{})
@@ -1045,14 +1090,20 @@ func selfTest(env *fw.Env, acc []*fw.Trace) []*fw.Trace {
 		}
 		// (2) a demanded blacklist refusal is turned into "allowed"
 		if quota["bl"] > 0 {
-			var b0, b1 int64 = -1, -1
-			perm := false
+			type order struct {
+				b0, b1 int64
+				perm   bool
+			}
+			latest := map[string]order{} // per entry form that covers the address
 			for i, e := range t.Events {
-				if e["ev"] == "Blk" {
-					b0, b1, perm = num(e["t0"]), num(e["t1"]), e["perm"] == true
+				if e["ev"] == "Blk" && e["form"] != "other" {
+					latest[fmt.Sprint(e["form"])] = order{num(e["t0"]), num(e["t1"]), e["perm"] == true}
 				}
-				if e["ev"] == "Query" && e["bl"] == true && b0 >= 0 && b1+num(cfg["mS"]) <= num(e["t0"]) &&
-					(perm || num(e["t1"]) <= b0+num(cfg["bld"])-num(cfg["mE"])) {
+				binding := false
+				for _, o := range latest {
+					binding = binding || (o.b1+num(cfg["mS"]) <= num(e["t0"]) && (o.perm || num(e["t1"]) <= o.b0+num(cfg["bld"])-num(cfg["mE"])))
+				}
+				if e["ev"] == "Query" && e["bl"] == true && binding {
 					next++
 					c := cloneTrace(t, next)
 					c.Events[i]["bl"] = false
@@ -1118,12 +1169,14 @@ func selfTest(env *fw.Env, acc []*fw.Trace) []*fw.Trace {
 const (
 	actsBan  = `{"Bad", "Query", "Tick", "Unban"}`
 	actsSeq  = `{"Bad", "Good", "Query", "Tick", "Unban", "Clean", "MUnban"}`
-	actsBl   = `{"Blk", "BlkP", "MUnbl", "Wl", "UnWl", "Query", "Tick", "Unbl", "CleanL"}`
+	actsBl   = `{"Blk", "BlkP", "BlkO", "MUnbl", "Wl", "WlO", "UnWl", "Query", "Tick", "Unbl", "CleanL", "Reload"}`
+	actsRate = `{"Anon", "Tick", "Idle", "Flood"}`
 	actsGate = `{"Blk", "Bad", "Good", "Anon", "Query", "Tick"}`
-	actsAll  = `{"Bad", "Good", "Anon", "Query", "Tick", "Unban", "Unbl", "Clean", "CleanL", "MUnban", "Blk", "MUnbl", "Wl"}`
-	fixAll   = `{"unban", "unbl", "order"}`
-	allSteps = `{"Hs", "Cred", "Ban", "Query", "Tick", "Unban", "Unbl", "Clean", "CleanL", "MUnban", "Blk", "BlkP", "MUnbl", "Wl", "UnWl"}`
-	allStDev = `{"Hs", "Cred", "Ban", "Query", "Tick", "Unban", "Unbl", "Clean", "CleanL", "MUnban", "Blk", "BlkP", "MUnbl", "Wl", "UnWl", "dev"}`
+	actsAll  = `{"Bad", "Good", "Anon", "Query", "Tick", "Unban", "Unbl", "Clean", "CleanL", "MUnban", "Blk", "BlkP", "MUnbl", "Wl", "Reload", "Flood"}`
+	fixHead  = `{"unban", "unbl", "order"}` // patches C18-1..3
+	fixAll   = `{"unban", "unbl", "order", "shadow"}`
+	allSteps = `{"Hs", "Cred", "Ban", "Query", "Tick", "Unban", "Unbl", "Clean", "CleanL", "MUnban", "Blk", "BlkP", "MUnbl", "Wl", "UnWl", "Reload", "Idle", "Flood"}`
+	allStDev = `{"Hs", "Cred", "Ban", "Query", "Tick", "Unban", "Unbl", "Clean", "CleanL", "MUnban", "Blk", "BlkP", "MUnbl", "Wl", "UnWl", "Reload", "Idle", "Flood", "dev"}`
 )
 
 // tm = time constants of a model configuration: threshold, permanent threshold, window, ban (ticks), clock bound
@@ -1131,7 +1184,7 @@ type tm struct{ thr, perm, win, ban, clock int }
 
 func (t tm) consts() map[string]string {
 	return map[string]string{"THR": strconv.Itoa(t.thr), "PERMAT": strconv.Itoa(t.perm), "WIN": strconv.Itoa(t.win), "BAN": strconv.Itoa(t.ban),
-		"MAXCLOCK": strconv.Itoa(t.clock), "MAXTOTAL": strconv.Itoa(t.perm + 1)}
+		"MAXCLOCK": strconv.Itoa(t.clock), "MAXTOTAL": strconv.Itoa(t.perm + 1), "MAXADM": "4"}
 }
 
 func mcJob(name, procs, acts, atomic, fixed, invs string, t tm) fw.TLCJob {
@@ -1146,6 +1199,23 @@ func genJob(name, procs, acts, atomic, fixed, emit string, t tm) fw.TLCJob {
 	return fw.TLCJob{Name: name, Module: "BruteForce", Cfg: "BruteForce_gen.cfg", Workers: 4, Timeout: 10 * time.Minute, Consts: c}
 }
 
+func reloadClock(env *fw.Env) int {
+	if env.Tier == "thorough" {
+		return 2
+	}
+	return 0
+}
+
+func genRate(env *fw.Env) fw.TLCJob {
+	mc := 6
+	if env.Tier == "thorough" {
+		mc = 9
+	}
+	j := genJob("gen:rate", `{"h1"}`, actsRate, "TRUE", fixAll, `{"Hs", "Cred", "Flood"}`, tm{2, 3, 2, 2, mc})
+	j.Consts["MAXADM"] = "10"
+	return j
+}
+
 func main() {
 	const asIs = "BanHoldsOrKnown BlacklistHoldsOrKnown"
 	const strict = "BanHolds BlacklistHolds NoDeviation"
@@ -1156,8 +1226,12 @@ func main() {
 		DesignRef: "DESIGN.md §5 C18",
 		ModelJobs: func(env *fw.Env) []fw.TLCJob {
 			if env.Tier == "quick" {
-				lists := `{"Blk", "BlkP", "MUnbl", "Wl", "Query", "Tick", "Unbl", "Anon"}`
+				lists := `{"Blk", "BlkP", "MUnbl", "Wl", "Query", "Tick", "Unbl", "Reload", "CleanL"}`
+				rate := mcJob("mc:rate", one, actsRate, "TRUE", fixAll, strict, tm{2, 3, 2, 2, 8})
+				rate.Consts["MAXADM"] = "8"
 				return []fw.TLCJob{
+					rate,
+					mcJob("mc:lists:head", one, lists, "TRUE", fixHead, "BanHolds BlacklistHoldsOrKnown", tm{2, 3, 2, 2, 4}),
 					mcJob("mc:race:as-is", two, race, "FALSE", "{}", asIs, tm{2, 3, 2, 2, 4}),
 					mcJob("mc:race:repaired", two, race, "FALSE", fixAll, strict, tm{2, 3, 2, 2, 4}),
 					mcJob("mc:seq:as-is", one, `{"Bad", "Good", "Query", "Tick", "Unban", "CleanF", "CleanB", "Clean", "MUnban"}`, "FALSE", "{}", asIs, tm{2, 3, 2, 2, 5}),
@@ -1166,8 +1240,12 @@ func main() {
 				}
 			}
 			full := `{"Bad", "Good", "Query", "Tick", "Unban", "CleanF", "CleanB", "MUnban"}`
-			lists := `{"Blk", "BlkP", "MUnbl", "Wl", "UnWl", "Query", "Tick", "Unbl", "CleanL", "Anon", "Bad"}`
+			lists := `{"Blk", "BlkP", "MUnbl", "Wl", "UnWl", "Query", "Tick", "Unbl", "CleanL", "Reload", "Anon", "Bad"}`
+			rate := mcJob("mc:rate", one, `{"Anon", "Bad", "Tick", "Idle", "Flood"}`, "TRUE", fixAll, strict, tm{2, 3, 2, 2, 9})
+			rate.Consts["MAXADM"] = "10"
 			return []fw.TLCJob{
+				rate,
+				mcJob("mc:lists:head", one, lists, "TRUE", fixHead, "BanHolds BlacklistHoldsOrKnown", tm{2, 3, 2, 2, 4}),
 				mcJob("mc:race-full:as-is", two, full, "FALSE", "{}", asIs, tm{2, 3, 2, 2, 4}),
 				mcJob("mc:race-full:repaired", two, full, "FALSE", fixAll, strict, tm{2, 3, 2, 2, 4}),
 				mcJob("mc:race-ban3:as-is", two, race, "FALSE", "{}", asIs, tm{2, 3, 2, 3, 6}),
@@ -1191,7 +1269,11 @@ func main() {
 				// sequential histories over the whole protector alphabet: one behaviour per transition
 				genJob("gen:seq", one, actsSeq, "TRUE", "{}", allSteps, tm{2, 3, 2, 2, mc}),
 				genJob("gen:lists:as-is", one, actsBl, "TRUE", "{}", allStDev, tm{2, 3, 2, 2, 3}),
+				// a restart from every combination of exact / range black- and whitelist entries (then the probe)
+				genJob("gen:reload", one, `{"Blk", "BlkP", "BlkO", "MUnbl", "Wl", "WlO", "UnWl", "Query", "Tick", "Reload"}`, "TRUE", fixAll, `{"Reload"}`, tm{2, 3, 2, 2, reloadClock(env)}),
 				genJob("gen:gate", one, actsGate, "TRUE", "{}", `{"Hs", "Cred", "Ban", "Query"}`, tm{2, 3, 2, 2, 2}),
+				// rate-limiter histories: take(s), idle for a whole refill period, flood - one per transition
+				genRate(env),
 			}
 			if env.Tier == "thorough" {
 				jobs = append(jobs,
@@ -1228,19 +1310,7 @@ func main() {
 				h &= 0xffffff
 			}
 			beh.Bad = []string{"unknown", "hmac", "nochal"}[h%3]
-			beh.Var = "exact"
-			hasBlk := false
-			for _, s := range beh.S {
-				if s.A == "Blk" || s.A == "BlkP" {
-					hasBlk = true
-				}
-			}
-			out := []json.RawMessage{fw.MustJSON(beh)}
-			if hasBlk && (env.Tier == "thorough" || h%4 == 0) {
-				beh.Var = "cidr"
-				out = append(out, fw.MustJSON(beh))
-			}
-			return out
+			return []json.RawMessage{fw.MustJSON(beh)}
 		},
 		ExtraBeh: func(env *fw.Env) []json.RawMessage {
 			n, ms := 8, 700
